@@ -205,7 +205,7 @@ CLAIMS["C20"] = {
             "datetime -> FormatDateTime, list -> FormatList, currency -> FormatCurrency, the plain formatter -> nothing) -- "
             "nothing missing and nothing spurious, for every tree (any number of keys, any nesting depth, any set of "
             "formatters); TranslationsInfos::get_icu_keys_inner does so over every namespace (or the single un-namespaced "
-            "tree) and terminates (decreases on the tree), and the set get_icu_keys hands to the key tables (its first two statements, lifted verbatim, rule E3) holds "
+            "tree); the recursive walk terminates (decreases on the tree); and the set get_icu_keys hands to the key tables (its first two statements, lifted verbatim, rule E3) holds "
             "exactly those options, starting from the empty set.",
     "note": "Not covered: how VarInfo.range_count / formatters are accumulated across locales and through foreign keys (the "
             "accumulator side is C08's get_keys / push_var / push_count contracts), get_keys / Options::into_data_keys (the "
